@@ -252,7 +252,18 @@ pub fn legacy_rekey_ops(w: &World, r: &mut Rng) -> Vec<Op> {
             if !canon_uuid(&id) || !r.chance(60) {
                 continue;
             }
-            let new_id = id.replace('-', "");
+            // earlier versions stored whatever spelling the sender used: no hyphens, and any letter case
+            let simple = id.replace('-', "");
+            let new_id = match r.below(10) {
+                0..=4 => simple,
+                5 | 6 => simple.to_uppercase(),
+                7 => simple.chars().enumerate().map(|(i, c)| if i % 2 == 0 { c.to_ascii_uppercase() } else { c }).collect(),
+                8 => id.to_uppercase(),
+                _ => format!("{}{}", &simple[..16].to_uppercase(), &simple[16..]),
+            };
+            if new_id == id {
+                continue;
+            }
             if let Ok(mut v) = serde_json::from_slice::<Value>(&raw) {
                 v["id"] = json!(new_id);
                 // keep the contract's field order: re-serialise through the raw text
